@@ -1,6 +1,7 @@
 import Rbql.Model.Basic
 import Rbql.Model.Csv
 import Rbql.Model.ReaderPy
+import Rbql.Model.ReaderJs
 import Rbql.Proofs.Find
 import Rbql.Proofs.Split
 import Rbql.Theorems.C11
